@@ -57,12 +57,33 @@ func genConsts() {
 	// natconn.onWrite: DNS timeout literal and the port test of isDNS
 	dnsNs, dnsPort := int64(-1), ""
 	if fd := svc.findFunc("natconn", "onWrite"); fd != nil {
+		// constants declared inside the function (`const dnsTimeout = 17 * time.Second`) count as their value
+		local := map[string]int64{}
+		ast.Inspect(fd.Body, func(n ast.Node) bool {
+			if gd, ok := n.(*ast.GenDecl); ok && gd.Tok == token.CONST {
+				for _, sp := range gd.Specs {
+					vs := sp.(*ast.ValueSpec)
+					for i, id := range vs.Names {
+						if i < len(vs.Values) {
+							if v, ok := evalInt(vs.Values[i]); ok {
+								local[id.Name] = v
+							}
+						}
+					}
+				}
+			}
+			return true
+		})
 		ast.Inspect(fd.Body, func(n ast.Node) bool {
 			if is, ok := n.(*ast.IfStmt); ok && exprString(is.Cond) == "isDNS" {
 				for _, st := range is.Body.List {
 					if as, ok := st.(*ast.AssignStmt); ok && len(as.Lhs) == 1 && exprString(as.Lhs[0]) == "timeout" {
 						if v, ok := evalInt(as.Rhs[0]); ok {
 							dnsNs = v
+						} else if id, ok := as.Rhs[0].(*ast.Ident); ok {
+							if v, ok := local[id.Name]; ok {
+								dnsNs = v
+							}
 						}
 					}
 				}
